@@ -93,6 +93,8 @@ def install(ip):
 
     def m_index(ip_, st, fr, t, args):
         v = val_of(ip_, st, args[0])
+        if isinstance(v, Opaque) and v.tag == "strvec" and isinstance(args[1], Agg) and len(args[1].fields) == 0:
+            return v      # vec[..]: the whole vector as a slice
         k = bv.to_int(args[1].bits) if isinstance(args[1], Int) else None
         if isinstance(v, Opaque) and v.tag == "strvec" and k is not None:
             ln = len_var(v.data)
@@ -136,6 +138,18 @@ def install(ip):
     def m_clone(ip_, st, fr, t, args):
         v = val_of(ip_, st, args[0])
         return v if isinstance(v, Opaque) else Opaque("clone")
+    def ptr_metadata(st, v):
+        if isinstance(v, Opaque) and v.tag == "strvec":
+            return Int(len_var(v.data))
+        return None
+
+    def opaque_cindex(st, v, off):
+        # slice patterns: [a, b, ..] reads the elements by constant index (the length was tested before)
+        if isinstance(v, Opaque) and v.tag == "strvec":
+            return S(("field", v.data, off))
+        return None
+    ip.ptr_metadata = ptr_metadata
+    ip.opaque_cindex = opaque_cindex
     ip.models["<std::string::String as std::ops::Deref>::deref"] = m_string_deref
     ip.models["core::str::<impl str>::split"] = m_split
     ip.models["std::str::<impl str>::split"] = m_split
